@@ -825,7 +825,7 @@ impl<Context: ServerContext> ApiDescription<Context> {
 
                     let (name, js) = match &param.schema {
                         ApiSchemaGenerator::Gen { name, schema } => {
-                            (Some(name()), schema(&mut generator))
+                            (Some(name()), inline_schema(&mut generator, *schema))
                         }
                         ApiSchemaGenerator::Static { schema, dependencies } => {
                             definitions.extend(dependencies.clone());
@@ -870,7 +870,7 @@ impl<Context: ServerContext> ApiDescription<Context> {
             let response = if let Some(schema) = &endpoint.response.schema {
                 let (name, js) = match schema {
                     ApiSchemaGenerator::Gen { name, schema } => {
-                        (Some(name()), schema(&mut generator))
+                        (Some(name()), inline_schema(&mut generator, *schema))
                     }
                     ApiSchemaGenerator::Static { schema, dependencies } => {
                         definitions.extend(dependencies.clone());
@@ -999,7 +999,7 @@ impl<Context: ServerContext> ApiDescription<Context> {
                             } => {
                                 let schema = j2oas_schema(
                                 Some(&name()),
-                                &schema(&mut generator),
+                                &inline_schema(&mut generator, *schema),
                             );
                             // If there's a schema name, reuse that rather than
                             // the Rust type name.
@@ -1386,6 +1386,24 @@ impl slog::Value for ApiEndpointVersions {
             ),
         }
     }
+}
+
+/// Generates the schema for a type that is used inline (i.e., as the schema of
+/// a request or response body rather than through `components`).
+///
+/// The generator only applies its visitors to the schemas that it collects as
+/// definitions.  Apply them here, too, so that inline schemas get the same
+/// treatment; in particular, siblings of a `$ref` (such as the `nullable` of an
+/// `Option<T>`) are otherwise lost.
+fn inline_schema(
+    generator: &mut schemars::gen::SchemaGenerator,
+    schema: fn(&mut schemars::gen::SchemaGenerator) -> schemars::schema::Schema,
+) -> schemars::schema::Schema {
+    let mut js = schema(generator);
+    for visitor in generator.visitors_mut() {
+        visitor.visit_schema(&mut js);
+    }
+    js
 }
 
 /// Returns true iff the schema represents the void schema that matches no data.
